@@ -27,6 +27,11 @@ CORPUS: list[dict] = [
     {"mode": "exact", "y0": ["1", "1"], "p0": ["1", "1/2", "0", "0"],
      "ops": [["sim", "2", 2], ["updvar", {"y": "0"}], ["prot", [["1", {"k": "2"}], ["2", {"k": "1/2"}]], 4],
              ["ptc", [["1", {"k": "2"}], ["2", {"k": "1/2"}], ["1/2", {"k": "0"}]], ["1/2", "1", "9/4", "3", "7/2", "9"], True]]},
+    # protocols continuing after an override with a rate law that reads `time` (fixes/C04-override-time.diff)
+    {"mode": "exact", "y0": ["1", "1"], "p0": ["1", "1/2", "1", "0"],
+     "ops": [["sim", "2", 2], ["updvar", {"x": "0"}], ["prot", [["1", {"k": "2"}], ["2", {"k": "1/2"}]], 2]]},
+    {"mode": "exact", "y0": ["1", "1"], "p0": ["1", "0", "1/2", "0"],
+     "ops": [["tc", ["1", "2"]], ["updvar", {"y": "2"}], ["ptc", [["1", {"k": "2"}], ["1", {"k": "1/2"}]], ["1/2", "1", "3/2"], True]]},
     {"mode": "scipy", "y0": ["2", "1"], "p0": ["1", "1/2"],
      "ops": [["ptc", [["1", {"k": "2"}], ["1", {"k": "0"}], ["1", {"k": "1/2"}]], ["0", "1/2", "1", "3/2", "5/2", "3", "4"], False]]},
     {"mode": "scipy", "y0": ["2", "1"], "p0": ["1", "1/2"],
